@@ -310,7 +310,7 @@ func (fc fontCase) width(i int) float64 {
 	return widthPool[(i+fc.outline[i]+fc.widthRot)%len(widthPool)]
 }
 
-func checkFont(c *mc.Ctx, fc fontCase) mc.Verdict {
+func buildFont(fc fontCase) *type1.Font {
 	set, _ := setOfMask(fc.mask)
 	f := &type1.Font{
 		FontInfo: &type1.FontInfo{FontName: "Test", FontMatrix: matrix.Matrix(fc.fm), IsFixedPitch: (fc.mask+fc.outline[1])%2 == 1, ItalicAngle: []float64{0, -12, 0}[(fc.mask+fc.outline[2])%3]},
@@ -323,6 +323,28 @@ func checkFont(c *mc.Ctx, fc fontCase) mc.Verdict {
 			applyOutline(g, outlines[fc.outline[i]])
 		}
 	}
+	return f
+}
+
+// fontAnswers renders what every query method returns for f.
+func fontAnswers(f *type1.Font) string {
+	var sb strings.Builder
+	fmt.Fprintf(&sb, "GlyphList=%q NumGlyphs=%d FontBBox=%v FontBBoxPDF=%v", f.GlyphList(), f.NumGlyphs(), f.FontBBox(), f.FontBBoxPDF())
+	wm := f.WidthsMapPDF()
+	for _, name := range append(append([]string(nil), namePool...), neverPresent) {
+		fmt.Fprintf(&sb, " | %s:", name)
+		if g := f.Glyphs[name]; g != nil {
+			fmt.Fprintf(&sb, " BBox=%v", g.BBox())
+		}
+		w, ok := wm[name]
+		fmt.Fprintf(&sb, " GlyphBBoxPDF=%v GlyphWidthPDF=%v map=%v/%v", f.GlyphBBoxPDF(name), f.GlyphWidthPDF(name), w, ok)
+	}
+	return sb.String()
+}
+
+func checkFont(c *mc.Ctx, fc fontCase) mc.Verdict {
+	set, _ := setOfMask(fc.mask)
+	f := buildFont(fc)
 	render := func() string { return fc.String() }
 	var fs []finding
 	add := func(key, format string, a ...any) {
@@ -508,6 +530,34 @@ func checkFont(c *mc.Ctx, fc fontCase) mc.Verdict {
 	if deep {
 		if after := observe.Dump(f); after != fontBefore {
 			add("type1.queries-change-the-font", "the font value differs after the query methods were called: %s", after)
+		}
+	}
+	// The answers are functions of the font as it is now, not of what was asked
+	// before: a font that has answered every query and is then edited in place
+	// (every glyph gets another outline and width; the number of glyphs, the
+	// encoding and the font matrix stay) answers like a newly built font with the
+	// same contents.  (One case in four, chosen by a pure function of the case.)
+	if (fc.mask+fc.widthRot+fc.outline[0]+2*fc.outline[1]+3*fc.outline[2]+fc.outline[3]+fc.outline[4])%4 == 0 {
+		fc2 := fc
+		for i := range fc2.outline {
+			fc2.outline[i] = (fc.outline[i] + 1 + i) % len(outlines)
+		}
+		fc2.widthRot = fc.widthRot + 1
+		donor := buildFont(fc2)
+		for i, n := range namePool {
+			if !set[n] {
+				continue
+			}
+			if (i+fc.mask)%2 == 0 {
+				*f.Glyphs[n] = *donor.Glyphs[n] // the same glyph value, new contents
+			} else {
+				f.Glyphs[n] = donor.Glyphs[n] // another glyph under the same name
+			}
+		}
+		got, want := fontAnswers(f), fontAnswers(buildFont(fc2))
+		c.Steps(2)
+		if got != want {
+			add("type1.answers-depend-on-earlier-queries", "after the font had answered all queries its glyphs were replaced by those of %s; it now answers %s, a newly built font with these contents answers %s", fc2.String(), got, want)
 		}
 	}
 	return verdict(fs, render, outcome, nontrivial, c)
